@@ -238,7 +238,10 @@ func (r *reader) GetByKey(key []byte, keyHash []byte, tctx int64) (message.Messa
 	return message.Invalid, index.ErrKeyNotFound
 }
 
-func (r *reader) GetByTime(ts int64, tctx int64) (message.Message, error) {
+// errTimeAtStart reports that the first message at or after the time is the first of the segment
+var errTimeAtStart = errors.New("time at start")
+
+func (r *reader) GetByTime(ts int64, tctx int64, later bool) (message.Message, error) {
 	index, err := r.getIndexAt(tctx)
 	if err != nil {
 		return message.Invalid, err
@@ -247,6 +250,14 @@ func (r *reader) GetByTime(ts int64, tctx int64) (message.Message, error) {
 	position, err := index.Time(ts)
 	if err != nil {
 		return message.Invalid, err
+	}
+
+	if later {
+		// first message of a later segment: an equal time may end the previous segment,
+		// which is decided from the index alone, before any record is read
+		if first, err := index.Get(message.OffsetOldest); err == nil && first == position {
+			return message.Invalid, errTimeAtStart
+		}
 	}
 
 	messages, err := r.getMessages()
